@@ -3,7 +3,7 @@ prop("C03", pkg="c03",
           "nested / pointer-to structs and scalars, **T, []T, map[K]V, untagged or fully tagged with numbers 1..2^29-1 weighted on 15/16, 2047/2048, 65535/65536 and "
           "varint/zigzag32/64/fixed32/64/bytes/rep tags, single-pointer 'inlined' chains to depth 3, top-level scalars; plus a static corpus: RawMessage, a Message "
           "implementer, two gogo-style custom types, three recursive structs, a struct with an unexported field, a protoc-style proto2 struct) and then 12 value recipes "
-          "per type (boundary-heavy integers and floats incl. -0/NaN payloads/Inf, nil vs empty, repeated fields of 0..40 elements and 5 % up to 3000 (thorough 5000)), "
+          "per type (boundary-heavy integers and floats incl. -0/NaN payloads/Inf, nil vs empty, repeated fields of 0..40 elements and 8 % beyond 40 (cheap element types up to 2500, thorough 5000) plus a sub-check whose values all carry a repeated field of 1001..2500 (thorough 5000) elements), "
           "each marshalled by value or (25 %) by pointer. One evaluation = one (type, value, by-pointer) case through Marshal, Size, Unmarshal, Marshal again. "
           "Non-trivial = the built value is not the zero value of its type; distinct = FNV-64 of (type descriptor JSON, value recipe JSON, by-pointer). "
           "Inputs of classes listed as known findings are avoided by construction or their specific difference is tolerated; both are counted in excluded_known.",
